@@ -2,7 +2,7 @@
 (* Constants of the model-checking and scenario configurations of Router.  *)
 (* Payloads are globally distinct integers 100*from + 10*cid + variant, so *)
 (* cross-talk between correlation ids would be visible.                    *)
-EXTENDS Router
+EXTENDS Router, Json
 
 K1 == Key(Root, "x")                                   \* "x"
 K2 == Key(Namespaced(Root, "a"), "x")                  \* "a/x"
@@ -50,7 +50,53 @@ ArgsA == Choices(CallsA, ArgsAx)
 ArgsC == Choices(CallsC, ArgsCx)
 ArgsT == Choices(CallsT, ArgsTx)
 
+\* ---- scenario scripts: forced prefixes <<action, process, payload or 0>> of the known races
+\* (used with RecordH = "full"; after the prefix the behaviour continues freely)
+CONSTANT Script
+NoScript == << >>
+\* deposit between the scan and the select (the window): the token must survive
+S1 == << <<"EnterAttach", "w1", 0>>, <<"RdStart", "rd", 0>>, <<"ScanWait", "w1", 0>>, <<"RdRecv", "rd", 111>>, <<"DepNew", "rd", 0>>,
+         <<"RdRecv", "rd", 211>>, <<"DepNew", "rd", 0>>, <<"Park", "w1", 0>>, <<"WakeToken", "w1", 0>>, <<"ScanOk", "w1", 0>> >>
+\* cancel racing the last deposit: the complete set wins over the cancellation
+S2 == << <<"EnterAttach", "w1", 0>>, <<"RdStart", "rd", 0>>, <<"RdRecv", "rd", 111>>, <<"DepNew", "rd", 0>>, <<"ScanWait", "w1", 0>>, <<"Park", "w1", 0>>,
+         <<"RdRecv", "rd", 211>>, <<"Cancel", "w1", 0>>, <<"WakeOther", "w1", 0>>, <<"DepNew", "rd", 0>>, <<"ScanOk", "w1", 0>> >>
+\* cancel wins when the last deposit comes after the scan: nothing is lost, a retry (w3) gets the set
+S2b == << <<"EnterAttach", "w1", 0>>, <<"RdStart", "rd", 0>>, <<"RdRecv", "rd", 111>>, <<"DepNew", "rd", 0>>, <<"ScanWait", "w1", 0>>, <<"Park", "w1", 0>>,
+          <<"RdRecv", "rd", 211>>, <<"Cancel", "w1", 0>>, <<"WakeOther", "w1", 0>>, <<"ScanCtx", "w1", 0>>, <<"DepNew", "rd", 0>>, <<"CleanupKeep", "w1", 0>>,
+          <<"EnterAttach", "w3", 0>>, <<"ScanOk", "w3", 0>> >>
+\* close racing a complete set: the attached call still gets it, a later call gets the failure
+S3 == << <<"EnterAttach", "w1", 0>>, <<"RdStart", "rd", 0>>, <<"ScanWait", "w1", 0>>, <<"Park", "w1", 0>>, <<"RdRecv", "rd", 111>>, <<"DepNew", "rd", 0>>,
+         <<"WakeToken", "w1", 0>>, <<"RdRecv", "rd", 211>>, <<"DepNew", "rd", 0>>, <<"Close", "close", 0>>, <<"ScanOk", "w1", 0>>,
+         <<"EnterFatal", "w3", 0>> >>
+\* conflicting duplicate after consumption: a new message, no poison
+S4 == << <<"EnterAttach", "w1", 0>>, <<"RdStart", "rd", 0>>, <<"RdRecv", "rd", 111>>, <<"DepNew", "rd", 0>>, <<"RdRecv", "rd", 211>>, <<"DepNew", "rd", 0>>,
+         <<"ScanOk", "w1", 0>>, <<"RdRecv", "rd", 212>>, <<"DepNew", "rd", 0>>, <<"CleanupKeep", "w1", 0>> >>
+\* identical duplicate absorbed, conflicting duplicate poisons and wakes the waiter
+S5 == << <<"EnterAttach", "w1", 0>>, <<"RdStart", "rd", 0>>, <<"RdRecv", "rd", 211>>, <<"DepNew", "rd", 0>>, <<"ScanWait", "w1", 0>>, <<"Park", "w1", 0>>,
+         <<"RdRecv", "rd", 211>>, <<"DepDupEqual", "rd", 0>>, <<"WakeToken", "w1", 0>>, <<"ScanWait", "w1", 0>>, <<"Park", "w1", 0>>,
+         <<"RdRecv", "rd", 212>>, <<"DepConflict", "rd", 0>>, <<"WakeToken", "w1", 0>>, <<"ScanPoison", "w1", 0>> >>
+\* concurrent call on the same correlation id is refused and disturbs nothing
+S6 == << <<"EnterAttach", "w1", 0>>, <<"EnterBusy", "w3", 0>>, <<"RdStart", "rd", 0>>, <<"ScanWait", "w1", 0>> >>
+CallsS == {"w1", "w2", "w3"}
+ArgsSx(w) == CASE w = "w1" -> {[cid |-> K1, froms |-> {1, 2}]}
+               [] w = "w2" -> {[cid |-> K2, froms |-> {1}]}
+               [] w = "w3" -> {[cid |-> K1, froms |-> {1, 2}]}
+ArgsS == Choices(CallsS, ArgsSx)
+WireS == BagOf(<<Msg(1, K1, 111), Msg(2, K1, 211), Msg(2, K1, 211), Msg(2, K1, 212), Msg(1, K2, 121), Msg(9, K1, 911)>>)
+Scripted ==
+  LET k == Len(h') IN
+  (k <= Len(Script) /\ k > Len(h)) =>
+     /\ h'[k].a = Script[k][1] /\ h'[k].p = Script[k][2]
+     /\ Script[k][3] # 0 => h'[k].m.pay = Script[k][3]
+ScriptNext == Next /\ Scripted
+
 \* behaviours are printed when nothing but stuttering is possible any more
-Quiescent == ~ENABLED Next
-PrintBehaviour == Quiescent => PrintT(<<"BEHAVIOUR", ToString(h)>>)
+Quiescent == ~ENABLED (Reader \/ (\E self \in Calls : Recv(self)) \/ Canceller \/ Closer \/ Net)
+PrintBehaviour == Quiescent => (IF TLCGet(2) = h THEN TRUE ELSE TLCSet(2, h) /\ PrintT(<<"BEHAVIOUR", ToJson(h)>>))
+SimInit == Init /\ TLCSet(2, << >>)
+\* coverage of (action, source pc vector) pairs: every worker prints a pair the first time it takes it
+CovInit == Init /\ TLCSet(3, {})
+CovStep == h' # h => LET x == <<h'[1].a, h'[1].src>> IN
+             IF x \in TLCGet(3) THEN TRUE ELSE TLCSet(3, TLCGet(3) \cup {x}) /\ PrintT(<<"COV", ToJson(x)>>)
+Cov == [][CovStep]_vars
 =============================================================================
